@@ -158,6 +158,18 @@ func (w *World) verifyFunc(fn *ssa.Function, c *FuncContract) (res *FuncResult) 
 			continue
 		}
 		for _, a := range cf.Axioms {
+			// tagged axioms are only visible to functions of the same property
+			if len(a.Tags) > 0 {
+				shared := false
+				for _, t := range a.Tags {
+					if clauseTagged(c, t) {
+						shared = true
+					}
+				}
+				if !shared {
+					continue
+				}
+			}
 			aenv := &SpecEnv{x: x, st: st, pkg: fn.Pkg.Pkg, vars: map[string]*Val{}}
 			g, err := aenv.assuming().evalBool(a.Expr)
 			if err != nil {
